@@ -114,6 +114,19 @@ EXTRA_CHECKS["C10"] = (MC,
     "trusted: behaviour can only change through a coincidence of names (capture); list of shell-owned names in c10.go; "
     "Bash only, Batch case folding not claimed; longer identifiers outside",
     "SSA symbolic execution with symbolic identifier bytes; z3 enumerates capturing spellings; differential run on bash")
+EXTRA_CHECKS["C05"] = (TV,
+    "reduced strength, model-level: the real front-end + Batch back-end are executed symbolically on the scalar, "
+    "function and slice/string shapes of C01-C03 with 32-bit symbolic integers; the emitted script is interpreted by "
+    "BatSem (cmd.exe's documented rules: parse-time % expansion, delayed ! expansion, label search, numeric-vs-string "
+    "IF, call/exit /B frames, 32-bit set /A) and compared by z3 per path with RefTSH at 32 bits; in addition the Batch "
+    "script of every accepted test program of the repository must print under BatSem what its Bash script prints under "
+    "the real bash",
+    "NO cmd.exe exists in the image: BatSem (oracle/batsem*.go, rules and sources in oracle/BATSEM_NOTES.md) is a "
+    "specification that cannot be calibrated against the real interpreter; it reproduces the expected output of all 120 "
+    "accepted repository test programs; a counterexample is re-derived by interpreting the natively transpiled concrete "
+    "program with BatSem concretely, it cannot be replayed on cmd.exe; string/echo special characters, file and program "
+    "helpers are outside the claim",
+    "SSA symbolic execution + BatSem/RefTSH(32-bit) equivalence decided by z3 per path (model-level)")
 EXTRA_CHECKS["C06"] = (MC,
     "symbolic execution of the real front-end and both back-ends on a table of typed positions x contexts; the offered "
     "expression is a variable whose declared type is 8 symbolic bytes (constrained to the 8 type spellings) or a call "
